@@ -3,15 +3,39 @@ multi-frame renderable, BaseImage.draw (old API) on Block/Kitty/ITerm2 images bu
 in-memory multi-frame GIFs — with sys.stdout connected to a pty slave (isatty() holds: the
 cursor is hidden/shown, echo is switched off) or to a StringIO; `sleep` patched to zero.
 Returns the bytes that arrived on the master side, the frames' own render outputs and
-whether the documented size error was raised."""
+whether the documented size error was raised.
+
+Round 4 additions (optional case keys; absent = the behaviour above):
+
+"real_term": {"window": [W, H], "env": {"COLUMNS": str | null, "LINES": str | null}}
+    the library's REAL `get_terminal_size()` runs (the function of $VERIF_REPO's utils.py, not a
+    stub, bound in every module that imported it by name); the active terminal (`_tty_fd`) is a
+    pty whose window size is set to W x H with TIOCSWINSZ, the process environment holds (or does
+    not hold) COLUMNS / LINES, and -- tty cases -- standard output (and sys.__stdout__) is that
+    same pty.  Result key "seen": what get_terminal_size() returned in that environment.
+"interrupt": {"sel": int, "frac": [num, den] | absent, "j": int | absent, "between": bool}
+    an animation ENDED BY Ctrl-C: a fault-free run first records the non-empty stream writes made
+    inside the animation (Renderable._animate_ / BaseImage._display_animated, clean-up excluded);
+    then, in a second run on a fresh object, write number k = sel mod (number of such writes)
+    delivers its first j characters (frac of its length, or the explicit j) and raises
+    KeyboardInterrupt ("between": the (sel mod number-of-sleeps)-th sleep() raises it instead:
+    an interrupt between two frames).  Result key "cut": {"k", "j", "len", "part" (the delivered
+    part of the cut write), "nwrites", "delivered" (characters that reached the terminal before the
+    exception), "between", "sleep"}.
+"""
+import importlib.util
 import io
 import os
 import pty
+import re
 import signal
+import struct
 import sys
+import fcntl
 import termios
 import threading
 import traceback
+import warnings
 
 import implenv
 from implenv import tests
@@ -33,20 +57,86 @@ from term_image.renderable import RenderSizeOutofRangeError
 FILLS = {"space": " ", "star": "*", "empty": ""}
 REAL_STDOUT = sys.stdout
 
-_rmod.sleep = lambda s: None
-_common.time.sleep = lambda s: None
 # `_stdout_write = sys.stdout.write` is bound at import time; follow the current sys.stdout
 _kitty._stdout_write = lambda s: sys.stdout.write(s)
 
 
-def capture(fn, tty):
+class CutOut:
+    """sys.stdout wrapper: counts the non-empty writes made while an animation is running
+    (between enter() and leave()); when armed, write number k delivers j characters and
+    raises KeyboardInterrupt."""
+
+    encoding = "utf-8"
+
+    def __init__(self, inner, k=None, j=None):
+        self.inner, self.k, self.j = inner, k, j
+        self.in_anim = False
+        self.writes = []        # the animation's non-empty writes
+        self.total = 0          # characters delivered so far (all writes)
+        self.delivered = None   # ... at the moment of the exception
+        self.armed = k is not None
+
+    def enter(self):
+        self.in_anim = True
+
+    def leave(self):
+        self.in_anim = False
+
+    def write(self, s):
+        if s and self.in_anim:
+            idx = len(self.writes)
+            self.writes.append(s)
+            if self.armed and idx == self.k:
+                self.armed = False
+                j = max(0, min(self.j, len(s)))
+                self.inner.write(s[:j])
+                self.inner.flush()
+                self.total += j
+                self.delivered = self.total
+                raise KeyboardInterrupt
+        self.total += len(s)
+        return self.inner.write(s)
+
+    def flush(self):
+        return self.inner.flush()
+
+    def isatty(self):
+        return self.inner.isatty()
+
+    def fileno(self):
+        return self.inner.fileno()
+
+
+class Sleeper:
+    """sleep() replacement: the n-th call (1-based) raises KeyboardInterrupt when armed."""
+
+    def __init__(self):
+        self.calls, self.n = 0, None
+
+    def __call__(self, seconds):
+        self.calls += 1
+        if self.n is not None and self.calls == self.n:
+            self.n = None
+            out = sys.stdout
+            if isinstance(out, CutOut):
+                out.delivered = out.total
+            raise KeyboardInterrupt
+
+
+SLEEPER = Sleeper()
+WRAP = None      # factory of the CutOut for the current run (None: plain stream)
+LAST_OUT = None  # the CutOut of the last run
+
+
+def capture(fn, tty, pair=None):
     """Run fn() with sys.stdout connected to a pty slave (tty) or a StringIO; return
-    (text written, exception or None)."""
+    (text written, exception or None).  pair: an existing (master, slave) pty to use."""
+    global LAST_OUT
     saved = sys.stdout
     exc = None
     if not tty:
         buf = io.StringIO()
-        sys.stdout = buf
+        sys.stdout = LAST_OUT = WRAP(buf) if WRAP else buf
         try:
             fn()
         except BaseException as e:  # noqa: B902
@@ -54,7 +144,7 @@ def capture(fn, tty):
         finally:
             sys.stdout = saved
         return buf.getvalue(), exc
-    master, slave = pty.openpty()
+    master, slave = pair or pty.openpty()
     attrs = termios.tcgetattr(slave)
     attrs[1] &= ~termios.OPOST  # no NL -> CRNL translation: the master sees what was written
     termios.tcsetattr(slave, termios.TCSANOW, attrs)
@@ -73,13 +163,17 @@ def capture(fn, tty):
     th = threading.Thread(target=reader, daemon=True)
     th.start()
     out = os.fdopen(slave, "w", encoding="utf-8", newline="")
-    sys.stdout = out
+    sys.stdout = LAST_OUT = WRAP(out) if WRAP else out
+    saved_dunder = sys.__stdout__
+    if pair:  # the process "runs on" that terminal
+        sys.__stdout__ = out
     try:
         fn()
     except BaseException as e:  # noqa: B902
         exc = e
     finally:
         sys.stdout = saved
+        sys.__stdout__ = saved_dunder
         try:
             out.flush()
             termios.tcdrain(slave)
@@ -89,6 +183,96 @@ def capture(fn, tty):
     th.join(5)
     os.close(master)
     return b"".join(chunks).decode("utf-8"), exc
+
+
+_rmod.sleep = SLEEPER
+_common.time.sleep = SLEEPER
+
+# the animation's extent, for CutOut: entry / exit of the two animation loops
+_orig_animate = Renderable._animate_
+_orig_display_animated = _common.BaseImage._display_animated
+
+
+def _extent(orig):
+    def wrapper(self, *args, **kwargs):
+        out = sys.stdout
+        if not isinstance(out, CutOut):
+            return orig(self, *args, **kwargs)
+        out.enter()
+        try:
+            return orig(self, *args, **kwargs)
+        finally:
+            out.leave()
+    return wrapper
+
+
+Renderable._animate_ = _extent(_orig_animate)
+_common.BaseImage._display_animated = _extent(_orig_display_animated)
+
+# the library's own get_terminal_size(): implenv's `tests` package replaced it by the 80x30 stub
+# before the other modules imported it by name; a private copy of $VERIF_REPO's utils.py is
+# executed (its relative imports resolve against the loaded package) to get the function back
+_REAL_UTILS = None
+
+
+def real_utils():
+    global _REAL_UTILS
+    if _REAL_UTILS is None:
+        spec = importlib.util.spec_from_file_location("term_image._utils_for_c06", term_image.utils.__file__)
+        mod = importlib.util.module_from_spec(spec)
+        mod.__package__ = "term_image"
+        with warnings.catch_warnings():
+            warnings.simplefilter("ignore")
+            spec.loader.exec_module(mod)
+        _REAL_UTILS = mod
+    return _REAL_UTILS
+
+
+def interruptible(case, once):
+    """once() -> (object, text, exception).  Without "interrupt": one run.  With it: a fault-free
+    run to record the animation's writes, then the run that is cut.  Returns once()'s triple of
+    the decisive run + (frames-side object of the fault-free run or None, cut description or None)."""
+    global WRAP
+    SLEEPER.calls, SLEEPER.n = 0, None
+    it = case.get("interrupt")
+    if not it:
+        return once() + (None, None)
+    WRAP = lambda inner: CutOut(inner)  # noqa: E731
+    try:
+        first = once()
+    finally:
+        WRAP = None
+    writes = list(LAST_OUT.writes)
+    nsleep = SLEEPER.calls
+    if writes and re.fullmatch(r"\x1b\[\d+B", writes[-1]):
+        writes.pop()  # the trailing cursor_down is clean-up
+    if first[2] is not None or not writes:
+        return first + (None, None)  # rejected / not an animation: nothing to interrupt
+    sel = int(it.get("sel", 0))
+    cut = {"nwrites": len(writes), "nsleep": nsleep, "between": False}
+    if it.get("between") and nsleep:
+        n = sel % nsleep + 1
+        cut.update(between=True, sleep=n)
+        WRAP = lambda inner: CutOut(inner)  # noqa: E731
+        SLEEPER.calls, SLEEPER.n = 0, n
+    else:
+        k = sel % len(writes)
+        text = writes[k]
+        if "j" in it:
+            j = max(0, min(int(it["j"]), len(text)))
+        else:
+            num, den = it.get("frac", [1, 2])
+            j = (len(text) * num) // den
+        cut.update(k=k, j=j, len=len(text), part=text[:j])
+        WRAP = lambda inner: CutOut(inner, k, j)  # noqa: E731
+        SLEEPER.calls, SLEEPER.n = 0, None
+    try:
+        second = once()
+    finally:
+        WRAP = None
+        SLEEPER.n = None
+    cut["delivered"] = LAST_OUT.delivered
+    return second + (first[0], cut)
 
 
 # ------------------------------------------------------------------ new API
@@ -127,13 +311,16 @@ class Anim(Renderable):
         if self._clear:
             output.write(self._clear)
 
+    def _handle_interrupted_draw_(self, render_data, render_args, output):
+        # what a text-based renderable has to do: end a cut control sequence, reset attributes
+        output.write("\x1b[0m")
 
-def run_new(case):
+
+def run_new(case, mkpair=None):
     w, h = case["size"]
     n = case["frames"]
     frames = [make_frame(case["frame_kind"], k, w, h, case.get("seed", 0)) for k in range(n)]
     clear = f"\x1b[{w}X" if case.get("clear") == "ech" else ""
-    r = Anim(frames, (w, h), clear)
     p = case["padding"]
     fill = FILLS[case.get("fill", "space")]
     if p["kind"] == "aligned":
@@ -145,8 +332,16 @@ def run_new(case):
     kw["loops"] = case.get("loops", 1)  # never the library's default (infinite)
     if "cache" in case:
         kw["cache"] = case["cache"]
-    out, exc = capture(lambda: r.draw(None, pad, **kw), case.get("tty", True))
+
+    def once():
+        r = Anim(frames, (w, h), clear)
+        out, exc = capture(lambda: r.draw(None, pad, **kw), case.get("tty", True), mkpair and mkpair())
+        return r, out, exc
+
+    r, out, exc, _, cut = interruptible(case, once)
     res = {"out": out, "frames": frames, "clear": clear, "size": [w, h], "rendered": r.rendered}
+    if cut:
+        res["cut"] = cut
     if exc is None:
         res["raised"] = 0
     elif isinstance(exc, RenderSizeOutofRangeError):
@@ -179,28 +374,34 @@ def make_gif(spec):
     return Image.open(buf)
 
 
-def run_old(case):
-    style = case["style"]
-    cls = {"block": BlockImage, "kitty": KittyImage, "iterm2": ITerm2Image}[style]
+class OldRun:
+    """one old-API image object with its recorded frame renders"""
+
+    def __init__(self, case):
+        style = case["style"]
+        cls = {"block": BlockImage, "kitty": KittyImage, "iterm2": ITerm2Image}[style]
+        self.img = img = make_gif(case["img"])
+        cells = case.get("cells")
+        self.image = image = cls(img, width=cells[0], height=cells[1]) if cells else cls(img)
+        if case.get("force_size"):  # a size that was never validated (the test-suite's way)
+            image._size = tuple(case["force_size"])
+        self.frames, self.sizes = frames, sizes = [], []
+        orig = image._render_image
+
+        def wrapped(*a, **k):
+            out = orig(*a, **k)
+            frames.append(out)
+            sizes.append(list(image.rendered_size))
+            return out
+
+        image._render_image = wrapped
+
+
+def run_old(case, mkpair=None):
     tests.set_cell_size(tuple(case.get("cell_size", (10, 20))))
     KittyImage._supported = ITerm2Image._supported = True
     KittyImage._KITTY_VERSION = tuple(case.get("kitty_version", (0, 30, 0)))
     ITerm2Image._TERM = case.get("term", "")
-    img = make_gif(case["img"])
-    cells = case.get("cells")
-    image = cls(img, width=cells[0], height=cells[1]) if cells else cls(img)
-    if case.get("force_size"):  # a size that was never validated (the test-suite's way)
-        image._size = tuple(case["force_size"])
-    frames, sizes = [], []
-    orig = image._render_image
-
-    def wrapped(*a, **k):
-        out = orig(*a, **k)
-        frames.append(out)
-        sizes.append(list(image.rendered_size))
-        return out
-
-    image._render_image = wrapped
     H_ALIGN = [["<", "left"], ["|", "center", None], [">", "right"]]
     V_ALIGN = [["^", "top"], ["-", "middle", None], ["_", "bottom"]]
     pres = case.get("pres", 0)
@@ -213,14 +414,30 @@ def run_old(case):
         kw["cached"] = case["cached"]
     kw.update(case.get("args", {}))
     W, Hh = case["pad"]
+
+    def once():
+        run = OldRun(case)
+        out, exc = capture(lambda: run.image.draw(ha, W, va, Hh, case.get("alpha", None), **kw),
+                           case.get("tty", True), mkpair and mkpair())
+        return run, out, exc
+
     try:
-        out, exc = capture(lambda: image.draw(ha, W, va, Hh, case.get("alpha", None), **kw), case.get("tty", True))
-        res = {"out": out, "frames": frames, "sizes": sizes, "n_frames": getattr(img, "n_frames", 1),
+        run, out, exc, full, cut = interruptible(case, once)
+        image, img = run.image, run.img
+        # an interrupted run renders only the frames up to the cut: the frame list is that of
+        # the fault-free run on an identical object
+        res = {"out": out, "frames": (full or run).frames, "sizes": run.sizes, "n_frames": getattr(img, "n_frames", 1),
                "animated": bool(image.is_animated)}
+        if cut:
+            res["cut"] = cut
+        probe = mkpair() if mkpair else None  # the terminal of the draw is closed by now
         try:
             res["size"] = list(image.rendered_size)
         except Exception:
             res["size"] = None
+        finally:
+            if probe:
+                os.close(probe[0]), os.close(probe[1])
         if exc is None:
             res["raised"] = 0
         elif isinstance(exc, InvalidSizeError) or (isinstance(exc, ValueError) and ("pad_width" in str(exc) or "pad_height" in str(exc))):
@@ -233,26 +450,82 @@ def run_old(case):
         ITerm2Image._TERM = ""
 
 
+def set_window(fd, w, h):
+    fcntl.ioctl(fd, termios.TIOCSWINSZ, struct.pack("HHHH", h, w, 0, 0))
+
+
 def run_case(case):
-    tw, th = case.get("term_size", (80, 30))
-    ts = os.terminal_size((tw, th))
     mods = (_common, _rmod, term_image.utils, _itmod)
     saved = [m.get_terminal_size for m in mods]
-    for m in mods:
-        m.get_terminal_size = lambda: ts
+    rt = case.get("real_term")
+    saved_env = {k: os.environ.get(k) for k in ("COLUMNS", "LINES")}
+    mkpair = None
+    keep = []
+    if rt:
+        U = real_utils()
+        W, H = rt["window"]
+        for m in mods:
+            m.get_terminal_size = U.get_terminal_size
+        for k in ("COLUMNS", "LINES"):
+            v = (rt.get("env") or {}).get(k)
+            if v is None:
+                os.environ.pop(k, None)
+            else:
+                os.environ[k] = str(v)
+
+        def mkpair():
+            master, slave = pty.openpty()
+            set_window(slave, W, H)
+            U._tty_fd = slave  # the active terminal
+            return master, slave
+
+        if not case.get("tty", True):
+            # output redirected: the active terminal is still there
+            keep = list(mkpair())
+    else:
+        tw, th = case.get("term_size", (80, 30))
+        ts = os.terminal_size((tw, th))
+        for m in mods:
+            m.get_terminal_size = lambda: ts
+
     def on_alarm(signum, frame):
         raise TimeoutError("draw() did not return within 20 s")
 
     signal.signal(signal.SIGALRM, on_alarm)
     signal.alarm(20)
     try:
-        return run_new(case) if case["api"] == "new" else run_old(case)
+        seen = None
+        if rt:
+            if case.get("tty", True):
+                probe = mkpair()
+                try:
+                    seen = list(_rmod.get_terminal_size())
+                finally:
+                    os.close(probe[0]), os.close(probe[1])
+            else:
+                seen = list(_rmod.get_terminal_size())
+        res = run_new(case, mkpair) if case["api"] == "new" else run_old(case, mkpair)
+        if seen is not None:
+            res["seen"] = seen
+        return res
     except Exception as e:
         return {"error": f"{type(e).__name__}: {e} {traceback.format_exc()[-400:]}"}
     finally:
         signal.alarm(0)
         for m, f in zip(mods, saved):
             m.get_terminal_size = f
+        for k, v in saved_env.items():
+            if v is None:
+                os.environ.pop(k, None)
+            else:
+                os.environ[k] = v
+        if rt:
+            real_utils()._tty_fd = -1
+        for fd in keep:
+            try:
+                os.close(fd)
+            except OSError:
+                pass
 
 
 if __name__ == "__main__":
